@@ -92,13 +92,18 @@ def build(stream, p):
     rows = gen.big_graph(p["k"], p["big"]) if "big" in p else p["rows"]       # large graphs are rebuilt from their seed
     k, v0, s, w = p["k"], p["v0"], p["s"], p["w"]
     vt = None
+    # check lengths (chosen by the strand): short, and beyond 32 / 33 symbols where 4^(n-1) passes 2^63 and 2^64; a wrong check
+    # differs from the right one in ONE symbol, at the end, at the start (the flag) or just behind the flag
+    import zlib
+    hv = zlib.crc32(s.encode("utf-8", "surrogatepass"))
     if p["vt"] == "right":
-        vt = formula(s, 4)
+        vt = formula(s, [4, 4, 33, 40][hv % 4])
     elif p["vt"] == "ofw":
-        vt = formula(w, 5)
+        vt = formula(w, [5, 5, 34, 70][hv % 4])
     elif p["vt"] == "wrong":
-        good = formula(s, 3)
-        vt = good[:-1] + NUC[(NUC.index(good[-1]) + 2) % 4]
+        good = formula(s, [3, 3, 34, 35, 48, 70][hv % 6])
+        pos = [len(good) - 1, 0, 1, min(2, len(good) - 1), len(good) // 2][(hv // 7) % 5]
+        vt = good[:pos] + NUC[(NUC.index(good[pos]) + 1 + (hv // 35) % 3) % 4] + good[pos + 1:]
     # graphs of order >= 8 are judged by the oracle only (a million-entry accessor per protocol line is not worth it)
     call, impl = rc.repair_case_parts(rows, v0, k, s, vt, p["indel"], p["heap"], rc.read_budget(len(s), k), no_call="big" in p)
 
